@@ -239,6 +239,13 @@ func spaceAfterToken(subject, before, after *Token) bool {
 		// Don't split namespace segments in a function call
 		return false
 
+	case subject.Type == hclsyntax.TokenDot && before.Type == hclsyntax.TokenNumberLit && after.Type == hclsyntax.TokenNumberLit:
+		// A dot written between two number literals (e.g. "1 .5", a legacy
+		// index applied to a number) must not be joined to both of them,
+		// because "1.5" would be scanned as a single number literal and so
+		// the formatted result would have a different meaning.
+		return true
+
 	case subject.Type == hclsyntax.TokenDot || after.Type == hclsyntax.TokenDot:
 		// Don't use spaces around attribute access dots
 		return false
